@@ -1,4 +1,5 @@
 import MJ.Proofs.OutputProg
+import MJ.Proofs.OutputEmit
 /-!
 # C19 — a failing output sink stops the render with the sink's own error
 
@@ -239,5 +240,114 @@ example :
       = .ok (.error (.writeFailure (some ⟨.brokenPipe, 3⟩))) ∧
     delivered (renderProgTo p [.all, .accept 1, .err ⟨.brokenPipe, 3⟩]).calls = [1, 2] :=
   ⟨by decide, by rfl, by decide⟩
+
+/-! ## `Interrupted`, the `Emit` layer, and the facts read off the source -/
+
+/-- **`Interrupted` is retried and invisible**: deleting every `Interrupted` answer from the
+    sink's script changes neither the returned result nor the bytes delivered (only the log gets
+    shorter) — for every operation sequence and every script. -/
+theorem interrupted_is_invisible (ops : List Op) (script : List Beh) :
+    (renderTo ops (dropInterrupts script)).result = (renderTo ops script).result ∧
+    delivered (renderTo ops (dropInterrupts script)).calls = delivered (renderTo ops script).calls := by
+  obtain ⟨_, hc, hr⟩ := render_spec ops script
+  obtain ⟨_, hc', hr'⟩ := render_spec ops (dropInterrupts script)
+  obtain ⟨h2, he, hd⟩ := feed_dropInterrupts (chunksOf ops) (⟨script, [], none⟩ : WriteWrapper)
+    (⟨dropInterrupts script, [], none⟩ : WriteWrapper) rfl rfl rfl
+  refine ⟨?_, by rw [hc, hc', hd]⟩
+  rcases hr with ⟨hok, _, hres⟩ | ⟨hok, e, herr, hres⟩
+  · rcases hr' with ⟨_, _, hres'⟩ | ⟨hok', _, _, _⟩
+    · rw [hres, hres']
+    · rw [h2, hok] at hok'; cases hok'
+  · rcases hr' with ⟨hok', _, _⟩ | ⟨_, e', herr', hres'⟩
+    · rw [h2, hok] at hok'; cases hok'
+    · rw [he, herr] at herr'
+      cases herr'
+      rw [hres, hres']
+
+example : dropInterrupts [.err ⟨.interrupted, 1⟩, .accept 1, .err ⟨.interrupted, 2⟩, .err ⟨.brokenPipe, 3⟩]
+    = [.accept 1, .err ⟨.brokenPipe, 3⟩] := by decide
+
+/-- **`HtmlEscape` chunking**: the pieces `HtmlEscape::fmt` writes are non-empty (each one is a
+    real call of the sink) and concatenate to the byte-wise escaped text — with the escape table
+    regenerated from the source. -/
+theorem html_pieces_spec (s : Bytes) :
+    (htmlPieces s).flatten = htmlEscape s ∧ ∀ p ∈ htmlPieces s, p ≠ [] :=
+  ⟨htmlPieces_flatten s, htmlPiecesAux_nonempty [] s⟩
+
+example : htmlPieces "a<b&&c".toUTF8.toList
+    = ["a".toUTF8.toList, "&lt;".toUTF8.toList, "b".toUTF8.toList, "&amp;".toUTF8.toList,
+       "&amp;".toUTF8.toList, "c".toUTF8.toList] := by decide +kernel
+
+/-- **Emit of a string under HTML auto-escaping into a failing sink**: whatever the sink does,
+    what it accepted is a prefix of the escaped text (also when the failure hits between an
+    ordinary run and an escape sequence), and `Ok` means all of it arrived. -/
+theorem emit_html_string (s : Bytes) (script : List Beh) :
+    delivered (renderTo (emitOps .html (.str s)) script).calls <+: htmlEscape s ∧
+    ((renderTo (emitOps .html (.str s)) script).result = .ok (.ok ()) →
+      delivered (renderTo (emitOps .html (.str s)) script).calls = htmlEscape s) := by
+  have hs : renderString (emitOps .html (.str s)) = ⟨htmlEscape s, .ok (.ok ())⟩ := by
+    simp only [emitOps, htmlOps]
+    by_cases hn : needsHtmlEscaping s = true
+    · simp only [hn, if_true]
+      rw [renderString_strs, htmlPieces_flatten]
+    · simp only [hn]
+      have := renderString_strs [s]
+      simp only [List.map_cons, List.map_nil, List.flatten_cons, List.flatten_nil, List.append_nil] at this
+      rw [htmlEscape_of_not_needs s (by simpa using hn)]
+      simpa using this
+  have h1 := delivered_is_prefix (emitOps .html (.str s)) script
+  have h2 := success_delivers_all (emitOps .html (.str s)) script
+  rw [hs] at h1 h2
+  exact ⟨h1, fun h => (h2 h).2⟩
+
+example : (match (renderTo (emitOps .html (.str [60, 62])) [.all, .accept 2, .err ⟨.other, 4⟩]).result with
+      | .ok (.error (.writeFailure (some e))) => e.id == 4
+      | _ => false) = true ∧
+    delivered (renderTo (emitOps .html (.str [60, 62])) [.all, .accept 2, .err ⟨.other, 4⟩]).calls
+      = "&lt;&g".toUTF8.toList := by decide +kernel
+
+/-- **User formatting code that fails by itself** (an `Object::render`, `Display` or custom
+    formatter returning `Err(fmt::Error)` after writing `ps`): if the sink never failed the call
+    returns `WriteFailure` *without* source, exactly as the plain render does; if the sink failed
+    with `e`, its error wins. -/
+theorem self_error_vs_sink_error (ps : Pieces) (script : List Beh) :
+    ((∀ c ∈ (renderTo (compile [.emitCustom ps true]) script).calls, c.failure = none) →
+      (renderTo (compile [.emitCustom ps true]) script).result = .ok (.error (.writeFailure none))) ∧
+    (∀ c ∈ (renderTo (compile [.emitCustom ps true]) script).calls, ∀ e, c.failure = some e →
+      (renderTo (compile [.emitCustom ps true]) script).result = .ok (.error (.writeFailure (some e)))) := by
+  constructor
+  · intro h
+    have hp := (clean_sink_same_as_plain _ script h).1
+    rw [hp]
+    simp only [compile, piecesOps, if_true, List.append_nil, renderString, St.init, run_append,
+      run_writes_string]
+    rfl
+  · intro c hc e hf
+    exact error_is_write_failure_with_source _ script c hc e hf
+
+example : (renderTo (compile [.emitCustom [.str [1], .chr [2]] true]) [.half]).result
+    = .ok (.error (.writeFailure none)) := by rfl
+
+/-- **Every write site of the engine propagates** (regenerated list of all `write_str` /
+    `write_char` / `write_fmt` / `write!` / `write_all` calls in output.rs, utils.rs, the VM and the
+    value formatting code): none swallows the result, none panics on it, none is unclassified.
+    This is what "the evaluation stops at the first `fmt::Error`" rests on in the source. -/
+theorem write_sites_propagate :
+    MJ.Gen.c19WriteSites.all (fun r => r.2.2 == "propagate") = true ∧ 40 ≤ MJ.Gen.c19WriteSites.length := by
+  decide +kernel
+
+/-- the public entry points that take an `io::Write` are exactly the two the model and the
+    harness cover, and each builds one `WriteWrapper` and passes its failure through `take_err` -/
+theorem writer_apis_covered :
+    MJ.Gen.c19WriterApis = [("template.rs", "render_captured_to"), ("vm/state.rs", "render_block_to_write")] ∧
+    MJ.Gen.c19WrapperSites.map (fun r => (r.1, r.2.1)) = MJ.Gen.c19WriterApis ∧
+    MJ.Gen.c19WrapperSites.all (fun r => r.2.2 == 1) = true := by
+  decide +kernel
+
+/-- every row of the escape table lies inside the range pre-filter of `HtmlEscape::fmt`, so the
+    filter hides none of them -/
+theorem html_table_inside_filter :
+    MJ.Gen.htmlEscapeTable.all (fun r => MJ.Gen.htmlEscapeFilterLo ≤ r.1.toNat ∧ r.1.toNat ≤ MJ.Gen.htmlEscapeFilterHi) = true := by
+  decide +kernel
 
 end MJ.C19
